@@ -121,14 +121,15 @@ theorem C16_pad (w : Int) (left : Bool) (s : Text) :
     have : w.toNat - s.length = 0 := by omega
     cases left <;> simp [padded, this]
 
-/-- What each of the sixteen kinds of field shows — which datum of the message goes with which kind:
-    constant text verbatim; date, time and date-time through `strftime` with the field's own format
-    string if it has one, else `%F`, `%T`, `%F %T`; the milliseconds and microseconds within the second
-    zero-padded to three and six digits; level and class as their names (`C16_level_class_names`);
-    error number, line number and process id in decimal (`C16_number_text` says what `decInt` and
-    `zeroPad` are); the thread id as "0x" and its hexadecimal digits; file, function and text as the
-    message holds them; an attribute field the value of the attribute it names
-    (`C16_attr_precedence`, `C16_attr_latest`). -/
+/-- (definitional lemma: restates the sixteen branches of the model's `fieldText` by `rfl`; it is NOT the clause
+    "every kind of field shows its datum" on its own - that is `C16_field_kinds`, which says what the texts ARE
+    without `decInt` / `zeroPad` / `levelText` / `classText`.  Kept because it is the one place where the
+    branches can be read side by side and because `C16_field_kinds` and the examples cite it.)
+    Which function of the model goes with which kind: constant text verbatim; date, time and date-time through
+    `strftime` with the field's own format string if it has one, else `%F`, `%T`, `%F %T`; `zeroPad` of the
+    milliseconds / microseconds; `levelText` / `classText`; `decInt` of error number, line number and process
+    id; "0x" and `Nat.toDigits 16` of the thread id; file, function and text as the message holds them;
+    `attrValue` for an attribute field. -/
 theorem C16_field_text (e : Env) (m : Msg) (c : Text) (w : Int) (l : Bool) :
     fieldText e m ⟨.constant, c, w, l⟩ = c ∧
     fieldText e m ⟨.date, c, w, l⟩ = e.strftime (if c = [] then bytes "%F" else c) m.time ∧
@@ -186,6 +187,65 @@ theorem C16_level_class_names :
   | 0, _ => exact ⟨rfl, rfl⟩
   | n + 7, _ => exact ⟨rfl, rfl⟩
   | 1, h | 2, h | 3, h | 4, h | 5, h | 6, h => omega
+
+/-- (every kind of field shows its datum) What the text of each of the sixteen kinds of field IS, for every
+    message, environment, option string, width and alignment - told with the specification-side notions of
+    Lemmas/LogFormatNumbers.lean (`IsSignedDecimal`, `IsFixedDigits`, the name tables `levelNames` / `classNames`)
+    and not with the model's formatting functions:
+    * constant: the text given, verbatim; file name, function name, message text: as the message holds them;
+    * date / time / date-time: what `strftime` (environment) gives for the message's time stamp and the field's
+      own format string, `%F` / `%T` / `%F %T` when it has none;
+    * error number, line number, process id: THE decimal numeral of the value - '-' iff negative, ASCII digits,
+      the right value, no leading zeros (`IsSignedDecimal` determines the text);
+    * milliseconds / microseconds within the second: exactly three / six ASCII digits denoting
+      `usec / 1000 mod 1000` / `usec mod 1000000`;
+    * level / class: the name at the position of the value in the table of `log_defs.hpp`, "undefined" for 0 and
+      for every value from 7 on;
+    * attribute: the value the message's own attribute chain gives to the name (even an empty one), else the newest
+      global attribute of that name, else nothing (`C16_attr_precedence`, `C16_attr_latest` say what the two
+      lookups are);
+    * thread id: "0x" followed by `Nat.toDigits 16` of the id - stated with that core function only, there is no
+      value theorem for the hexadecimal digits (labelled; the differential run compares it byte by byte). -/
+theorem C16_field_kinds (e : Env) (m : Msg) (c : Text) (w : Int) (l : Bool) :
+    fieldText e m ⟨.constant, c, w, l⟩ = c
+    ∧ fieldText e m ⟨.fileName, c, w, l⟩ = m.file
+    ∧ fieldText e m ⟨.functionName, c, w, l⟩ = m.func
+    ∧ fieldText e m ⟨.text, c, w, l⟩ = m.text
+    ∧ fieldText e m ⟨.date, c, w, l⟩ = e.strftime (if c = [] then bytes "%F" else c) m.time
+    ∧ fieldText e m ⟨.time, c, w, l⟩ = e.strftime (if c = [] then bytes "%T" else c) m.time
+    ∧ fieldText e m ⟨.dateTime, c, w, l⟩ = e.strftime (if c = [] then bytes "%F %T" else c) m.time
+    ∧ IsSignedDecimal (fieldText e m ⟨.errorNbr, c, w, l⟩) m.errNbr
+    ∧ IsSignedDecimal (fieldText e m ⟨.lineNbr, c, w, l⟩) m.line
+    ∧ IsSignedDecimal (fieldText e m ⟨.pid, c, w, l⟩) m.pid
+    ∧ IsFixedDigits (fieldText e m ⟨.time_ms, c, w, l⟩) 3 (m.usec / 1000 % 1000)
+    ∧ IsFixedDigits (fieldText e m ⟨.time_us, c, w, l⟩) 6 (m.usec % 1000000)
+    ∧ fieldText e m ⟨.msgLevel, c, w, l⟩ = (levelNames[m.level]?).getD (bytes "undefined")
+    ∧ fieldText e m ⟨.msgClass, c, w, l⟩ = (classNames[m.cls]?).getD (bytes "undefined")
+    ∧ ((∀ v, chainFind m.attrs c = some v → fieldText e m ⟨.attribute, c, w, l⟩ = v)
+        ∧ (chainFind m.attrs c = none → fieldText e m ⟨.attribute, c, w, l⟩ = e.glob.get c))
+    ∧ fieldText e m ⟨.threadId, c, w, l⟩ = bytes "0x" ++ (Nat.toDigits 16 m.tid).map Char.toNat := by
+  have ft := C16_field_text e m c w l
+  obtain ⟨f1, f2, f3, f4, f5, f6, f7, f8, f9, f10, f11, f12, f13, f14, f15, f16⟩ := ft
+  refine ⟨f1, f9, f10, f12, f2, f3, f4, ?_, ?_, ?_, ?_, ?_, ?_, ?_, ?_, f16⟩
+  · rw [f7]; exact decInt_signed _
+  · rw [f8]; exact decInt_signed _
+  · rw [f11]; exact decInt_signed _
+  · rw [f14]; exact zeroPad_spec 3 _ (by decide) (Nat.mod_lt _ (by decide))
+  · rw [f15]; exact zeroPad_spec 6 _ (by decide) (Nat.mod_lt _ (by decide))
+  · rw [f5]; exact levelText_table _
+  · rw [f6]; exact classText_table _
+  · rw [f13]; exact ⟨fun v h => by simp [attrValue, h], fun h => by simp [attrValue, h]⟩
+
+/-- `IsSignedDecimal` / `IsFixedDigits` are not vacuous and determine what one expects: "-13" is the numeral of
+    -13, "012" the three-digit text of 12, and "013" is NOT the numeral of 13 (leading zero) -/
+example : IsSignedDecimal (bytes "-13") (-13) ∧ IsFixedDigits (bytes "012") 3 12 ∧ ¬ IsDecimal (bytes "013") 13 := by
+  refine ⟨?_, ⟨by decide, by decide, by decide⟩, ?_⟩
+  · have := decInt_signed (-13)
+    have e : decInt (-13) = bytes "-13" := by decide
+    rw [e] at this; exact this
+  · intro h
+    have := (h.2.2 2 (by decide)).mpr (by decide)
+    revert this; decide
 
 example : decInt (-13) = bytes "-13" ∧ decInt 0 = bytes "0" ∧ zeroPad 3 12 = bytes "012" ∧
     digitsValue (bytes "012") = 12 := by decide
@@ -268,7 +328,11 @@ theorem C16_attr_precedence (e : Env) (m : Msg) (n : Text) :
 /-! ### attribute scopes
 
   `Scopes` = the global container (entries with the ids `addAttribute` handed out) + the ids held by
-  the living `ScopedAttribute` objects.  `Scopes.WF` (ids below `mNextId`, no id twice, live ids handed
+  the living `ScopedAttribute` objects.  Events of a history (`Ev`): a scope begins (`push`), the newest / the
+  i-th open scope ends (`pop`, `drop i`), `addAttribute` (`global`), `removeAttribute( name)` (`remove`), and
+  `removeId k` = `Logging::removeAttributeEntry( k)` - public since the repair - called with ANY number `k` by the
+  application (with an id `addAttribute` returned, or not) or by the destructor of a COPY of a
+  `ScopedAttribute` (copying is allowed; the copy holds the id of the original, the original stays alive).  `Scopes.WF` (ids below `mNextId`, no id twice, live ids handed
   out) holds in the initial state and is kept by every event (`C16_scope_invariant`), so every
   statement below is about every state a program can reach. -/
 
@@ -298,13 +362,18 @@ theorem C16_scope_end_removes_own_entry (s : Scopes) (hs : s.WF) :
     rw [List.filter_eq_self]
     intro e he; simpa using h e he
 
-/-- Every point of every history without `removeAttribute` — scopes opened, nested, ended in or out of
-    order, permanent additions with any name at any moment, from any reachable state.  After every
-    prefix (`es.take k`) the global container holds exactly: what was there before and what the prefix
-    added (`addsOf`, scoped and permanent alike, in order of addition), without the entries of the
-    scopes that have ended by then (`endedOf`); the scopes still open are `liveOf`.  Hence every
+/-- Every point of every history without `removeAttribute( name)` — scopes opened, nested, ended in or out of
+    order, copies of scope objects destroyed, `removeAttributeEntry( id)` with any id, permanent additions with
+    any name at any moment, from any reachable state.  After every prefix (`es.take k`) the global container
+    holds exactly: what was there before and what the prefix added (`addsOf`, scoped and permanent alike, in
+    order of addition), without the entries of the scopes that have ended by then and of the ids taken away
+    by `removeAttributeEntry` (`endedOf`); the scopes still open are `liveOf`.  Hence every
     attribute lookup at that point sees the newest entry of the name among the permanent attributes
-    and the scopes that are open at that point (`C16_attr_latest`), and nothing of a scope that ended. -/
+    and the scopes that are open at that point (`C16_attr_latest`), and nothing of a scope that ended.
+    (The hypothesis `hr` excludes `removeAttribute( name)` only: which entry it takes depends on the names in
+    the container; for such histories there are `C16_scope_end_for_good` and the exact steps
+    `C16_remove_by_name`, `C16_scope_end_removes_own_entry`, `C16_remove_by_id`.  Needed: `[push 1 10, remove 1]`
+    leaves nothing, the closed form would keep the entry.) -/
 theorem C16_scope_every_point (s : Scopes) (hs : s.WF) (es : List Ev) (hr : ∀ e ∈ es, e.isRemove = false)
     (k : Nat) (s' : Scopes) (h : s.run (es.take k) = some s') :
     let visible := (s.ents ++ addsOf s.next (es.take k)).filter
@@ -317,9 +386,11 @@ theorem C16_scope_every_point (s : Scopes) (hs : s.WF) (es : List Ev) (hr : ∀ 
   intro sf m n
   simp only [Scopes.glob, this.1]
 
-/-- Scoped attributes disappear when their scope ends — every history, `removeAttribute` included,
-    after every prefix: no entry of a scope that has ended is in the container, and the container
-    holds nothing but (some of) what was there before and what the prefix added, in order. -/
+/-- Scoped attributes disappear when their scope ends — every history, `removeAttribute( name)` and
+    `removeAttributeEntry( id)` included, after every prefix: no entry of a scope that has ended (or of an id
+    taken away by `removeAttributeEntry`) is in the container, and the container holds nothing but (some of)
+    what was there before and what the prefix added, in order.  (That a scope end takes away NOTHING ELSE is
+    the exact step `C16_scope_end_removes_own_entry`; this theorem gives `Sublist` only.) -/
 theorem C16_scope_end_for_good (s : Scopes) (hs : s.WF) (es : List Ev) (k : Nat) (s' : Scopes)
     (h : s.run (es.take k) = some s') :
     (∀ i ∈ endedOf s.next s.live (es.take k), ∀ e ∈ s'.ents, e.id ≠ i) ∧
@@ -340,6 +411,25 @@ theorem C16_remove_by_name (s : Scopes) (n : Text) :
   · intro h
     simp only [Scopes.step]
     rw [removeName_absent _ _ h]
+
+/-- `Logging::removeAttributeEntry( k)` — called by the application or by the destructor of a copy of a
+    `ScopedAttribute` — in any reachable state: exactly the entry with the id `k` is gone (ids occur once), every
+    other entry stays in place, the open scopes are untouched; when no entry has the id (never handed out,
+    removed before, the scope's entry already taken by `removeAttribute`) nothing changes.  In particular after
+    a copy of a scope object died, the end of the original removes nothing
+    (`C16_scope_end_removes_own_entry`, third part). -/
+theorem C16_remove_by_id (s : Scopes) (hs : s.WF) (k : Nat) :
+    s.step (.removeId k) = some { s with ents := s.ents.filter (fun e => e.id ≠ k) } ∧
+    ((∀ e ∈ s.ents, e.id ≠ k) → s.step (.removeId k) = some s) ∧
+    (s.next ≤ k → s.step (.removeId k) = some s) := by
+  have h1 : s.step (.removeId k) = some { s with ents := s.ents.filter (fun e => e.id ≠ k) } := by
+    simp only [Scopes.step]
+    rw [removeId_eq_filter _ _ hs.nodup]
+  have h2 : (∀ e ∈ s.ents, e.id ≠ k) → s.step (.removeId k) = some s := by
+    intro h
+    simp only [Scopes.step]
+    rw [removeId_absent _ _ h]
+  exact ⟨h1, h2, fun hk => h2 (fun e he => by have := hs.lt e he; omega)⟩
 
 /-- Scopes.  For every well-bracketed history (scoped attributes nested to any depth, in sequence,
     interleaved with permanent `addAttribute` calls of any name — also the name of a scope that is open
@@ -404,6 +494,22 @@ example :
       viewOf ((addsOf 0 (h.take k)).filter (fun e => !(endedOf 0 [] (h.take k)).contains e.id))) =
     [[], [([1], [10])], [([1], [10]), ([1], [30])], [([1], [10]), ([1], [30]), ([2], [20])],
      [([1], [30]), ([2], [20])], [([1], [30])]] := by decide
+
+/-- a copy of a scope object dies before the original (`removeId 0` while scope 0 is open): the attribute is
+    gone from then on, the scope is still open, its end changes nothing; and `removeAttributeEntry` of a permanent
+    entry's id in the middle of a scope.  `C16_scope_every_point` holds at every point of both histories (its
+    hypothesis: no `removeAttribute( name)`). -/
+example :
+    let h1 : List Ev := [.push [1] [10], .removeId 0, .global [1] [30], .pop]
+    let h2 : List Ev := [.global [1] [9], .push [1] [10], .removeId 0, .removeId 7, .pop]
+    (∀ e ∈ h1 ++ h2, e.isRemove = false)
+    ∧ (List.range 5).map (fun k => (({} : Scopes).run (h1.take k)).map (fun s => (s.glob, s.live)))
+        = [some ([], []), some ([([1], [10])], [0]), some ([], [0]), some ([([1], [30])], [0]), some ([([1], [30])], [])]
+    ∧ (List.range 6).all (fun k =>
+        (({} : Scopes).run (h2.take k)).map (fun s => (s.ents, s.live)) ==
+          some ((addsOf 0 (h2.take k)).filter (fun e => !(endedOf 0 [] (h2.take k)).contains e.id),
+                liveOf 0 [] (h2.take k))) = true
+    ∧ (({} : Scopes).run h2).map Scopes.glob = some [] := by decide
 
 /-- message attribute (even empty) over scoped over permanent global -/
 example : attrValue ⟨fun _ _ => [], [([1], [9]), ([1], [10])]⟩ { attrs := [[([1], [])], [([1], [7])]] } [1] = [] := by
